@@ -212,11 +212,17 @@ def _alarm(signum, frame):
     raise RunTimeout()
 
 
+def hang_limit():
+    """CPU seconds one run may use (VERIF_HANG_LIMITS="<interpreted>,<jitted>")."""
+    a, b = (float(x) for x in os.environ.get("VERIF_HANG_LIMITS", "20,120").split(","))
+    return a if os.environ.get("NUMBA_DISABLE_JIT", "0") == "1" else b
+
+
 def _chunk_worker(args):
     prop_mod_name, seed, tier, lo, hi = args
     mod = sys.modules[prop_mod_name]
     faulthandler.dump_traceback_later(900, exit=True)
-    signal.signal(signal.SIGALRM, _alarm)
+    signal.signal(signal.SIGVTALRM, _alarm)
     agg = {"stats": Counter(), "probes": Counter(), "states": set(), "trans": set(),
            "digests": [], "nontrivial": [], "steps": 0, "oracle_steps": 0,
            "violations": [], "samples": [], "cfgs": Counter(), "extra": []}
@@ -226,28 +232,29 @@ def _chunk_worker(args):
         cfg = mod.gen_config(rng, tier)
         if flt and any(cfg.get(k) != v for k, v in flt.items()):
             continue   # batch replay: only the runs that feed the replayed statistic
-        r = None
-        # wall-clock limits are the one timing-dependent thing in the harness: a run that exceeds
-        # the first limit (load, a burst of JIT compilations) is simply run again with a much
-        # longer one; only a run that exceeds both is reported as a hang
-        limits = tuple(int(x) for x in os.environ.get("VERIF_HANG_LIMITS", "300,2400").split(","))
-        for limit in limits:
-            signal.alarm(limit)
-            try:
-                if limit != limits[0]:
-                    rng = run_rng(seed, mod.PROP_ID, idx)
-                    mod.gen_config(rng, tier)          # re-consume the configuration draws
-                r = execute(mod.RunClass, cfg, rng=rng, max_steps=cfg["steps"])
-                break
-            except RunTimeout:
-                r = None
-            finally:
-                signal.alarm(0)
-        if r is None:
+        # a run is limited in CPU time of this process (ITIMER_VIRTUAL), not in wall time, so that
+        # machine load cannot turn a slow run into a "hang"; interpreted runs take milliseconds,
+        # jitted runs may have to compile kernel specialisations (tens of CPU seconds)
+        limit = hang_limit()
+        signal.setitimer(signal.ITIMER_VIRTUAL, limit)
+        try:
+            r = execute(mod.RunClass, cfg, rng=rng, max_steps=cfg["steps"])
+        except RunTimeout:
             r = {"cfg": cfg, "ops": [], "digest": "timeout", "steps": 0, "stats": Counter(),
                  "probes": Counter(), "states": set(), "trans": set(), "nontrivial": False,
                  "oracle_steps": 0,
-                 "violation": {"step": -1, "oracle": "hang", "detail": {"limit_s": limits[-1]}, "trigger": None}}
+                 "violation": {"step": -1, "oracle": "hang", "detail": {"cpu_limit_s": limit}, "trigger": None}}
+        except MemoryError:
+            # the address-space limit of this chunk process was hit inside the run (a runaway
+            # allocation): same treatment as a run that does not return
+            import gc
+            gc.collect()
+            r = {"cfg": cfg, "ops": [], "digest": "memory", "steps": 0, "stats": Counter(),
+                 "probes": Counter(), "states": set(), "trans": set(), "nontrivial": False,
+                 "oracle_steps": 0,
+                 "violation": {"step": -1, "oracle": "hang", "detail": {"memory_exhausted": True}, "trigger": None}}
+        finally:
+            signal.setitimer(signal.ITIMER_VIRTUAL, 0)
         agg["stats"].update(r["stats"])
         agg["probes"].update(r["probes"])
         agg["states"].update(r["states"])
@@ -287,6 +294,14 @@ def chunk_bounds(prop_id, idx):
 
 
 def _child_main(task, conn):
+    try:
+        # a runaway allocation in the system under test must end in MemoryError inside the
+        # call (judged like any other exception), not in the kernel killing the worker
+        import resource
+        lim = int(float(os.environ.get("VERIF_CHILD_AS_GB", "10")) * (1 << 30))
+        resource.setrlimit(resource.RLIMIT_AS, (lim, lim))
+    except Exception:
+        pass
     try:
         conn.send(("ok", _chunk_worker(task)))
     except BaseException as e:  # noqa
